@@ -841,8 +841,13 @@ func (ex *Exec) sliceOp(fr *Frame, in *ssa.Slice) Value {
 			arr = (*x.Slot).(Array)
 		} else {
 			k, okc := constInt(x.Idx)
-			if !okc || !x.Arr.isDense() {
+			if !x.Arr.isDense() {
 				panic(unsupported("slice of array reached through symbolic pointer"))
+			}
+			if !okc {
+				// &table[i][:] with a symbolic i (a table of fixed-size
+				// arrays): one path per feasible index
+				k = ex.concretize(x.Idx, "index of an array of arrays")
 			}
 			arr = x.Arr.Dense[k].(Array)
 		}
